@@ -142,6 +142,54 @@ func checkC13(p *Program, r *Report) {
 					sites = append(sites, s)
 					continue
 				}
+				// the modulus: a load of the filter's field, or — in an extracted helper — a parameter that every
+				// caller fills with that field
+				modOrigin := func(v ssa.Value) (*types.Var, ssa.Value, bool) {
+					if f, base, ok := fieldLoad(v); ok {
+						return f, base, true
+					}
+					pa, ok := v.(*ssa.Parameter)
+					if !ok {
+						return nil, nil, false
+					}
+					var through func(pa *ssa.Parameter, depth int) (*types.Var, bool)
+					through = func(pa *ssa.Parameter, depth int) (*types.Var, bool) {
+						host := pa.Parent()
+						if depth > 3 || (host.Object() != nil && host.Object().Exported()) {
+							return nil, false
+						}
+						pi := paramIndex(host, pa)
+						var fld *types.Var
+						for _, g := range scope {
+							for _, gb := range g.Blocks {
+								for _, gi := range gb.Instrs {
+									gc, ok := gi.(*ssa.Call)
+									if !ok || gc.Call.StaticCallee() != host || pi >= len(gc.Call.Args) {
+										continue
+									}
+									var f *types.Var
+									if ff, _, ok := fieldLoad(gc.Call.Args[pi]); ok {
+										f = ff
+									} else if pp, ok := gc.Call.Args[pi].(*ssa.Parameter); ok {
+										if ff, ok := through(pp, depth+1); ok {
+											f = ff
+										}
+									}
+									if f == nil || (fld != nil && f != fld) {
+										return nil, false
+									}
+									fld = f
+								}
+							}
+						}
+						return fld, fld != nil
+					}
+					fld, ok := through(pa, 0)
+					if !ok {
+						return nil, nil, false
+					}
+					return fld, pa, true
+				}
 				// hi = M >> 32
 				hi, ok1 := rc.Call.Args[1].(*ssa.BinOp)
 				var f1 *types.Var
@@ -150,7 +198,7 @@ func checkC13(p *Program, r *Report) {
 					if k, ok := constInt(hi.Y); ok {
 						s.shift = k
 					}
-					f1, base1, ok1 = fieldLoad(hi.X)
+					f1, base1, ok1 = modOrigin(hi.X)
 				} else {
 					ok1 = false
 				}
@@ -162,7 +210,7 @@ func checkC13(p *Program, r *Report) {
 					if cv2, ok := cv.X.(*ssa.Convert); ok {
 						lcx := NewLinCtx(p, fn)
 						s.lowBits = lcx.bitsOf(cv2.Type())
-						f2, base2, ok2 = fieldLoad(cv2.X)
+						f2, base2, ok2 = modOrigin(cv2.X)
 					}
 				}
 				switch {
@@ -259,15 +307,22 @@ func checkC13(p *Program, r *Report) {
 						if !isBuiltin(&x.Call, "append") {
 							bad = "passed to " + calleeShort(&x.Call)
 						}
-					case *ssa.Return, *ssa.MakeInterface:
+					case *ssa.MakeInterface:
 						bad = "escapes"
+					case *ssa.Return:
+						// a hashing helper hands the reduced value to its callers: their uses are judged in its place
+						if fn.Object() != nil && fn.Object().Exported() {
+							bad = "escapes"
+						} else {
+							reduceFns[fn] = true
+						}
 					}
 				}
 				r.Add("C13.pipeline", FnName(fn), "reduced value is only appended, compared or used as a key", c.Pos(), bad == "", bad)
 			}
 		}
 	}
-	r.Floor("C13.pipeline", 8)
+	r.Floor("C13.pipeline", 5)
 
 	// ---- C13.width: taint
 	nconv := 0
@@ -423,7 +478,7 @@ func checkC13(p *Program, r *Report) {
 			r.Add("C13.width", FnName(fn), "set values tracked through the function", fn.Pos(), true, fmt.Sprintf("%d tainted SSA values, narrowing conversions checked", nt))
 		}
 	}
-	r.Floor("C13.width", 4)
+	r.Floor("C13.width", 3)
 
 	// ---- C13.reader: the element decoder assembles its result at full width
 	for _, fn := range scope {
